@@ -60,14 +60,14 @@ where
     // Hash verification key into transcript
     vk.hash_into(transcript)?;
 
-    for committed_instances in committed_instances.iter() {
+    // The instances are absorbed proof by proof (committed columns first, then
+    // the plain ones), exactly as the prover does.
+    for (committed_instances, instances) in committed_instances.iter().zip(instances.iter()) {
         for commitment in committed_instances.iter() {
             transcript.common(commitment)?
         }
-    }
 
-    for instance in instances.iter() {
-        for instance in instance.iter() {
+        for instance in instances.iter() {
             transcript.common(&F::from_u128(instance.len() as u128))?;
             for value in instance.iter() {
                 transcript.common(value)?;
